@@ -71,7 +71,22 @@ def minmax(*xs):
     yield functools.reduce(np.maximum, xs)
 
 
-CUSTOM = {"neg": neg, "affine": affine, "twice": twice, "wsum": wsum, "first": first, "minmax": minmax}
+def _make_scale(k):
+    def scale(x):          # two different functions, both with __name__ == "scale"
+        return x * k
+    return scale
+
+
+# C14: callables that differ although their __name__ is the same
+lam1 = lambda x: x + 1      # noqa: E731
+lam2 = lambda x: x * 2      # noqa: E731
+dupA = _make_scale(3)
+dupB = _make_scale(5)
+rlam1 = lambda *xs: xs[0]       # noqa: E731
+rlam2 = lambda *xs: xs[-1]      # noqa: E731
+
+CUSTOM = {"neg": neg, "affine": affine, "twice": twice, "wsum": wsum, "first": first, "minmax": minmax,
+          "lam1": lam1, "lam2": lam2, "dupA": dupA, "dupB": dupB, "rlam1": rlam1, "rlam2": rlam2}
 
 
 def err_class(e: BaseException) -> str:
@@ -151,6 +166,8 @@ def exec_stmt(st, env):
             f = lambda act, v: act.select({st["fdim"]: v})  # noqa: E731
         elif kind == "take":
             f = lambda act, v: fl._expand_transform(act, v, 0)  # noqa: E731
+        elif kind == "ident":       # C14 probe: a func that hands its argument back
+            f = lambda act, v: act  # noqa: E731
         else:
             raise ValueError(kind)
         return a.transform(f, [(p,) for p in st["params"]], _dimarg(st["dim"]), axis=st["axis"])
